@@ -37,6 +37,30 @@ KIND_CHAR = {"loop": "L", "full": "F", "short": "S", "boundary": "B"}
 KIND_DIST = {"loop": 0.5, "full": 1.0, "short": 0.25}
 
 
+# Finding met on the unchanged tree.  known_findings.json is maintained by the lead; until the id is listed
+# there the entry below is used, and said so in the assumptions.
+PROPOSED = [
+    {"id": "F-LOOP-1", "property": "X02", "status": "known", "match": {"deviation": "InvalidThresholdAccepted"},
+     "what": "SimParams::SimParams(Input) accepts looping thresholds for which LoopingThreshold::operator bool is false "
+             "(input: Input::looping[pdg::electron()] = {max_subthreshold_steps 0, max_steps 0, threshold_energy -1 MeV} on the "
+             "hand-built e-/e+/gamma problem): the only check is CELER_ASSERT(looping.back()) -- compiled out of a release build, "
+             "and it tests the LAST element of the vector (the positron's, still default) instead of the entry just assigned "
+             "(looping[pid.get()]), so a debug build accepts an invalid gamma/electron entry as well. Effect: with max_steps 0 "
+             "the first looping step of every electron is a tracking-cut (counter 1 >= 0). Expected: CELER_VALIDATE on the "
+             "assigned entry. Scoped by the trace spec (InvalidThresholdAccepted): the constructed table equals the user's "
+             "input and the invalid entries are the user's own; any other table mismatch is the VIOLATION X02.ThresholdTable."},
+]
+
+
+def _probe_runs(first_id):
+    """Directed: invalid user thresholds (one field at a time, and all three) for the electron."""
+    prims = [dict(ev=0, pt=1, E=1.0, pos=[20.0, 0.0, 0.0], dir=[0.6, 0.8, 0.0]),
+             dict(ev=0, pt=2, E=2.0, pos=[1.0, 1.0, 0.0], dir=[0.0, 0.6, 0.8])]
+    bad = [dict(mss=0, ms=3, E=1.0), dict(mss=2, ms=0, E=1.0), dict(mss=2, ms=3, E=-1.0), dict(mss=0, ms=0, E=-1.0)]
+    return [dict(id=first_id + i, mode="real", field=5.0, drv=dict(max_substeps=2), slots=2, prims=prims, maxiters=200,
+                 thr=[dict(pdg=11, **b)]) for i, b in enumerate(bad)]
+
+
 def _summary(r):
     m = re.search(r'<<"SUMMARY", "(.*)">>', r.out)
     if not m:
@@ -54,9 +78,9 @@ def _scripts_of(out):
 # ----------------------------------------------------------------------------- design check
 def _design(ctx):
     cfg = "LoopingMC" if ctx.quick else "LoopingMC_thorough"
-    jobs = [dict(module="LoopingMC", cfg=cfg, workers=4, timeout=2400, heap="6g")]
+    jobs = [dict(module="LoopingMC", cfg=cfg, workers=3, timeout=2400, heap="6g")]
     jobs += [dict(module="LoopingMC", cfg="LoopingMC_" + v, workers=1, timeout=600, heap="2g") for v in MUTANTS]
-    res = vlib.tlc_parallel(jobs, maxpar=3)
+    res = vlib.tlc_parallel(jobs, maxpar=2)   # 3 workers + one mutant at a time = 4 threads
     main = res[0]
     if main.code != 0:
         if main.violated:
@@ -200,6 +224,10 @@ def _harness(ctx, name, runs):
 def run(ctx):
     vlib.build(["vlooping"])
     q = ctx.quick
+    for p in PROPOSED:
+        if not any(f["id"] == p["id"] for f in ctx.findings):
+            ctx.findings.append(p)
+            ctx.assumptions.append("finding %s is proposed by this check and not yet listed in known_findings.json" % p["id"])
     t0 = time.time()
     main, scripts, refuted = _design(ctx)
     vlib.log("X02 design check: %d states, %d transitions, %d scripts, mutants %s, %.0fs"
@@ -208,7 +236,7 @@ def run(ctx):
     # ------------------------------------------------------------------ harness runs
     t0 = time.time()
     sruns, nscripts = _scripted_runs(scripts, ctx.seed, None)
-    nreal = 70 if q else 400
+    nreal = 70 if q else 1000
     rruns = _real_runs(ctx.seed, nreal, 100000)
     jobs = []
     nsh = 4 if q else 12
@@ -218,6 +246,7 @@ def run(ctx):
     nrs = 4 if q else 12
     for i in range(nrs):
         jobs.append(("real%02d" % i, rruns[i::nrs]))
+    jobs.append(("probe", _probe_runs(900000)))
     with cf.ThreadPoolExecutor(max_workers=4) as ex:
         outs = list(ex.map(lambda nj: _harness(ctx, nj[0], nj[1]), jobs))
     vlib.log("X02 harness: %d scripted runs (%d scripts), %d real runs, %.0fs" % (len(sruns), nscripts, len(rruns), time.time() - t0))
@@ -228,6 +257,7 @@ def run(ctx):
     results = vlib.tlc_parallel(tj, maxpar=4)
     vlib.log("X02 trace validation: %.0fs" % (time.time() - t0))
     stat, cnt, cells = {}, {}, set()
+    devs = 0
     samples, distinct, records = [], set(), 0
     arcnorm = 0.0
     for (name, runs), path, r in zip(jobs, outs, results):
@@ -242,6 +272,11 @@ def run(ctx):
             stat[k] = stat.get(k, 0) + v
         for c in summ["cells"]:
             cells.add(tuple(c))
+        if summ.get("dev", 0):
+            devs += summ["dev"]
+            ctx.violation("%d run(s) of %s: SimParams accepted an invalid LoopingThreshold from its input (vlooping %s)"
+                          % (summ["dev"], name, ctx.path(name + ".runs.json")),
+                          tags={"deviation": "InvalidThresholdAccepted"}, files=[path, ctx.path(name + ".runs.json")])
         byid = {}
         with open(path) as fh:
             for i, line in enumerate(fh):
@@ -300,7 +335,7 @@ def run(ctx):
         "scripts_emitted": len(scripts), "scripts_replayed": nscripts, "scripted_runs": len(sruns), "real_runs": len(rruns),
         "step_records": records, "impl_stats": stat, "clause_counts": cnt,
         "decision_cells": sorted(list(c) for c in cells),
-        "design_mutants_refuted": refuted,
+        "design_mutants_refuted": refuted, "named_deviation_hits": devs,
         "arc_oracle_max_normalised_residual": arcnorm,
     })
     ctx.assumptions += [
